@@ -20,8 +20,20 @@ _TAIL = "abcdefghijklmnopqrstuvwxyz0123456789"
 _BAD = {"P", "Q", "PP"}
 
 
-def gen_names(rng: random.Random, n: int) -> list[str]:
-    """Fresh variable names per scenario so each (scenario, hash seed) is a new draw of set orders."""
+COMMON_NAMES = ["A", "B", "C", "X", "Y", "Z", "W", "M"]
+
+
+def gen_names(rng: random.Random, n: int, common: bool = False) -> list[str]:
+    """Fresh variable names per scenario so each (scenario, hash seed) is a new draw of set orders.
+
+    With common=True the names come from a small fixed pool instead, so that different scenarios
+    executed in one interpreter talk about the *same* variables (a cache in the code under test
+    that is keyed too coarsely can then carry an answer from one scenario into another).
+    """
+    if common:
+        pool = list(COMMON_NAMES)
+        rng.shuffle(pool)
+        return pool[:n] if n <= len(pool) else pool + gen_names(rng, n - len(pool))
     out: list[str] = []
     while len(out) < n:
         k = rng.choice((1, 1, 2, 2, 3))
@@ -43,7 +55,7 @@ def gen_graph(
 ) -> dict[str, Any]:
     """Draw an abstract mixed graph."""
     n = rng.randint(n_lo, n_hi)
-    names = list(names) if names is not None else gen_names(rng, n)
+    names = list(names) if names is not None else gen_names(rng, n, common=rng.random() < 0.2)
     names = names[:n] if len(names) >= n else names + gen_names(rng, n - len(names))
     pd = rng.choice(pd_choices)
     pb = rng.choice(pb_choices)
